@@ -13,6 +13,8 @@ fn arg(args: &[String], name: &str) -> Option<String> {
     args.iter().position(|a| a == name).and_then(|i| args.get(i + 1).cloned())
 }
 
+static PROGRESS: std::sync::atomic::AtomicU64 = std::sync::atomic::AtomicU64::new(0);
+
 fn main() {
     let args: Vec<String> = std::env::args().collect();
     let cmd = args.get(1).map(|s| s.as_str()).unwrap_or("");
@@ -27,6 +29,23 @@ fn main() {
             let mut ctx = exec::Ctx::new(wr);
             ctx.probe_cap = cap;
             let mut n = 0u64;
+            // watchdog: a case that does not return within VERIF_HANG_SECS (default 120) is reported with its number
+            // and the process exits with status 3 (C06: "or hang"); the orchestrator turns that into a violation
+            let limit = std::env::var("VERIF_HANG_SECS").ok().and_then(|s| s.parse().ok()).unwrap_or(120u64);
+            std::thread::spawn(move || {
+                let (mut seen, mut since) = (0u64, std::time::Instant::now());
+                loop {
+                    std::thread::sleep(std::time::Duration::from_millis(500));
+                    let cur = PROGRESS.load(std::sync::atomic::Ordering::Relaxed);
+                    if cur != seen {
+                        seen = cur;
+                        since = std::time::Instant::now();
+                    } else if cur > 0 && since.elapsed().as_secs() >= limit {
+                        println!("{{\"hang_cid\":{}}}", cur);
+                        std::process::exit(3);
+                    }
+                }
+            });
             for line in rd.lines() {
                 let line = line.expect("read");
                 if line.trim().is_empty() {
@@ -41,6 +60,7 @@ fn main() {
                 };
                 n += 1;
                 ctx.cid = n;
+                PROGRESS.store(n, std::sync::atomic::Ordering::Relaxed);
                 ctx.run_case(&case);
             }
             ctx.out.flush().unwrap();
